@@ -106,6 +106,8 @@ def scenarios(tier: str) -> List[ConcScenario]:
     S.append(ConcScenario('init/insert-vs-get-vs-remove', hasher='identity', capacity=None, prefill=[], threads=[[('insert', 1)], [('get', 1)], [('remove', 1)]], preemptions=2, yield_loads=th))
     # operations racing with a resize of a small table (helpers, forwarding, clear restarting in the new table)
     S.append(ConcScenario('resize/insert-vs-insert', hasher='identity', capacity=1, prefill=[0], threads=[[('insert', 1)], [('insert', 2)]], preemptions=p))
+    S.append(ConcScenario('resize/compute-vs-insert', hasher='identity', capacity=1, prefill=[0], threads=[[('compute_inc', 0)], [('insert', 1)]], preemptions=p))
+    S.append(ConcScenario('resize/remove-vs-insert', hasher='identity', capacity=1, prefill=[0], threads=[[('remove', 0)], [('insert', 1)]], preemptions=p))
     S.append(ConcScenario('resize/insert-vs-clear', hasher='identity', capacity=1, prefill=[0], threads=[[('insert', 1), ('insert', 2)], [('clear',)]], preemptions=p))
     S.append(ConcScenario('resize/insert-vs-remove-vs-get', hasher='identity', capacity=1, prefill=[0, 1], threads=[[('insert', 2)], [('remove', 0)], [('get', 1)]], preemptions=2, yield_loads=th))
     if th:
@@ -196,4 +198,6 @@ def run(tier: str) -> int:
     scs = scenarios(tier)
     results = run_conc(scs)
     report(chk, 'C11', results, scs, owned_kinds=None, describe='every thread finishes, lock_state 0, no lock held, history linearizable')
+    from ._conc import matrix_section
+    matrix_section(chk, 'C11')
     return chk.finish()
